@@ -25,7 +25,7 @@ DEP_ALLOW = {'num_enum': ('num_enum::TryFromPrimitive::try_from_primitive',)}
 COPY_TYPES = ['RawShortMessage', 'StructuredShortMessage', 'ControlChange14BitMessage', 'ParameterNumberMessage',
               'ControlChange14BitMessageScanner', 'ParameterNumberMessageScanner', 'PollingParameterNumberMessageScanner',
               'U4', 'U7', 'U14', 'Channel', 'KeyNumber', 'ControllerNumber', 'TimeCodeQuarterFrame', 'ShortMessageType']
-FLOORS = {'panic_capable_sites_K1': 51, 'call_terminators_K1': 888}
+FLOORS = {'panic_capable_sites_K1': 40, 'call_terminators_K1': 750}
 
 
 def documented_panic_fns(F):
